@@ -276,7 +276,20 @@ BASES = [1.0, 0.8, 1e-2, 0.5, 3.3, 20.0, 1000.0, 1e6, 4e4, 1e9, 1e13 / 1e6]
 
 @st.composite
 def res_st(draw):
-    kind = draw(st.sampled_from(["iso", "two", "three", "named", "free"]))
+    kind = draw(st.sampled_from(["iso", "two", "three", "named", "free",
+                                 "decimal"]))
+    if kind == "decimal":
+        # voxel sizes as people write them: two significant decimal digits of
+        # one unit (0.8 / 1.6 / 2.5 mm ...): scale keys are formatted from
+        # them, and x.5 values are exact rounding ties of that formatting
+        unit = draw(st.sampled_from([1.0, 1e3, 1e6, 1e5, 1e2]))
+        digits = st.one_of(st.integers(1, 99),
+                           st.sampled_from([5, 15, 25, 35, 45, 16, 8, 12]))
+        r = [draw(digits) * unit / 10 for _ in range(3)]
+        if draw(st.booleans()):
+            r[1] = r[0]
+        draw(st.randoms(use_true_random=False)).shuffle(r)
+        return r
     base = draw(st.one_of(st.sampled_from(BASES), st.floats(1e-2, 1e7)))
     if draw(st.booleans()):
         base = float(max(1, int(base)))
